@@ -155,6 +155,8 @@ def main(argv=None):
                     for x in v:
                         if x not in extra[k2] and len(extra[k2]) < 400:
                             extra[k2].append(x)
+                elif isinstance(v, bool):
+                    extra[k2] = bool(extra.get(k2, True)) and v
                 elif isinstance(v, (int, float)):
                     extra[k2] = extra.get(k2, 0) + v
                 else:
